@@ -383,6 +383,7 @@ struct FnDirective {
     slots: Vec<(String, String)>,
     clears: Vec<(String, String, String)>,
     spawn_body: bool,
+    async_body: Option<String>, // R19c: the fn's body is `Box::pin(async move { B })`: verify `async fn name(params) -> <this type> { B }`
     nodecreases: bool,
 }
 
@@ -875,6 +876,7 @@ fn main() {
                 slots: opts.get("slots").map(|s| s.split_whitespace().filter_map(|x| x.split_once(':').map(|(a, b)| (a.to_string(), b.to_string()))).collect()).unwrap_or_default(),
                 clears: opts.get("clears").map(|s| s.split_whitespace().filter_map(|x| { let v: Vec<&str> = x.splitn(3, ':').collect(); if v.len() == 3 { Some((v[0].to_string(), v[1].to_string(), v[2].to_string())) } else { None } }).collect()).unwrap_or_default(),
                 spawn_body: opts.contains_key("spawn_body"),
+                async_body: opts.get("asyncbody").cloned(),
                 nodecreases: opts.contains_key("nodecreases"),
                 mutparams: opts.get("mutparams").map(|s| s.split_whitespace().map(|x| x.to_string()).collect()).unwrap_or_default(),
                 ..Default::default()
@@ -1145,6 +1147,30 @@ fn emit_fn(
 
     // R14: a fn whose only statement is `tokio::spawn(async move { B });` is verified as `async fn` with body B
     let mut func = func;
+    if let Some(out_ty) = &d.async_body {
+        // R19c: `fn f(params) -> BoxedFuture { Box::pin(async move { B }) }`: the future's body, which captures exactly the
+        // parameters, is verified as `async fn f(params) -> Output { B }` (what the boxed future computes when it is driven)
+        let mut inner: Option<Block> = None;
+        if func.block.stmts.len() == 1 {
+            if let Stmt::Expr(Expr::Call(c), None) = &func.block.stmts[0] {
+                if norm(&c.func.to_token_stream().to_string()) == "Box::pin" && c.args.len() == 1 {
+                    if let Expr::Async(a) = &c.args[0] {
+                        inner = Some(a.block.clone());
+                    }
+                }
+            }
+        }
+        match inner {
+            Some(b) => {
+                func.block = b;
+                func.sig.asyncness = Some(Default::default());
+                let ty: Type = parse_str(out_ty).unwrap_or_else(|_| die("asyncbody= needs a type"));
+                func.sig.output = ReturnType::Type(Default::default(), Box::new(ty));
+                rw.log.push("R19c Box::pin(async move {..}) as the whole body: verified as an async fn with the future's output type".into());
+            }
+            None => die(&format!("R19c: the body of {} is not a single Box::pin(async move {{..}})", d.name)),
+        }
+    }
     if d.spawn_body {
         let mut inner: Option<Block> = None;
         if func.block.stmts.len() == 1 {
